@@ -182,7 +182,12 @@ class World:
             import pandas as pd
             xs = [e for e in cfg["events"] if e["kind"] == "x"]
             tr.add_events([ev for ev, e in zip(self.events, cfg["events"]) if e["kind"] != "x"])
-            tr.add_custom_events(pd.DataFrame({"vid": [e["id"] for e in xs]}, index=pd.DatetimeIndex([T(e["t"], tick) for e in xs])), EventX)
+            frame = pd.DataFrame({"vid": [e["id"] for e in xs]}, index=pd.DatetimeIndex([T(e["t"], tick) for e in xs]))
+            if sum(e["id"] for e in xs) % 2 == 1:
+                # the table also has a 'time' column (the period a release refers to, a day before its publication): the stamp
+                # of the event is the row's index all the same
+                frame["time"] = [T(e["t"], tick) - timedelta(days=1) for e in xs]
+            tr.add_custom_events(frame, EventX)
         elif len(self.events) >= 3 and len(self.events) % 3 != 0:
             # loaded in two batches that overlap in time (e.g. bars first, ticks later): the stream is the union of its batches
             h = len(self.events) // 2
